@@ -110,10 +110,10 @@ def run_repr(ctx, case):
     ctx.note(klass=kind, desc=[din, dout, K.shape[0], field, kind, case['state']], nontrivial=nt,
              labels=[kind, field, case['state'], 'din!=dout' if din != dout else 'din=dout', f'din={din}'])
     I = sum(k.conj().T @ k for k in K)
-    if np.abs(I - np.eye(din)).max() > 1e-9:
+    if np.abs(I - np.eye(din)).max() > (1e-12 if kind.startswith('numqi') else 1e-9):  # the clauses below are judged at 1e-10: the channel itself must be better than that
         if kind.startswith('numqi'):
             # validity of the generators is C10's business (incl. nearly singular draws, see DESIGN section 11); here such a draw is not a usable channel
-            ctx.inconclusive_case('numqi.random draw not trace preserving to 1e-9')
+            ctx.inconclusive_case('numqi.random draw not trace preserving to 1e-12')
             return
         from ..core import HarnessError
         raise HarnessError('vf Kraus construction not trace preserving')
@@ -253,6 +253,9 @@ def run_contr(ctx, case):
     K = _channel(case, r)
     ctx.note(klass=kind, desc=[din, dout, K.shape[0], case['field'], kind, case['state'], case['state2']],
              nontrivial=(din != dout or case['state'] != 'full' or case['state2'] != 'full'), labels=[kind, case['state'], case['state2']])
+    if np.abs(sum(k.conj().T @ k for k in K) - np.eye(din)).max() > 1e-12:
+        ctx.inconclusive_case('numqi.random draw not trace preserving to 1e-12')  # nearly singular draw of the generator (C10's business): not a usable channel for 1e-9 inequalities
+        return
     rho = make_state(r, din, case['state'])
     sig = make_state(r, din, case['state2'])
     if case['close']:
